@@ -162,6 +162,27 @@ def special_circuits():
         Line(c, g4, o)
         Line(c, forks[-1], o2)
         yield c, ('special', f'fork-chain-{depth}')
+    # the same shape with the forks *created* downstream-first (as after substitute(), or by API users): tables filled per fork in creation order must not
+    # assume that the upstream fork has been handled already; the branch lines get lower indices than the fork-to-fork lines
+    for depth in (2, 3):
+        c = Circuit(f'chainrev{depth}')
+        a, b, o, o2 = Node(c, 'a', 'input'), Node(c, 'b', 'input'), Node(c, 'o', 'output'), Node(c, 'o2', 'output')
+        for n in (a, b, o, o2):
+            c.io_nodes.append(n)
+        forks = [Node(c, f's{k}') for k in range(depth - 1, -1, -1)][::-1]          # s_{depth-1} is created first, s0 (the stem fork) last
+        g4 = Node(c, 'g4', 'XOR2')
+        g1 = Node(c, 'g1', 'INV1')
+        Line(c, forks[-1], (g4, 1))
+        Line(c, forks[-1], o2)
+        Line(c, g4, o)
+        Line(c, g1, (g4, 0))
+        for k in range(depth - 1, 0, -1):
+            Line(c, forks[k - 1], forks[k])
+        Line(c, forks[0], g1)
+        g0 = Node(c, 'g0', 'NAND2')
+        Line(c, a, (g0, 0)); Line(c, b, (g0, 1))
+        Line(c, g0, forks[0])
+        yield c, ('special', f'fork-chain-downstream-first-{depth}')
     # a stem captured through a fan-out branch (flip-flop / output) whose sibling branch is consumed early, followed by a level that is wide
     # enough to re-use the stem's memory (c_reuse + strip_forks: the captured line must stay pinned through its stem)
     for capt in ('DFF', 'output'):
